@@ -23,16 +23,56 @@ fn compare(c: &Case, sched: &Schedule, api_sel: u64, pass: &mut Pass) -> Result<
     let slices = api_sel;
     let filter = filter_for(c.filter);
     let reference = reference(&c.stream, c.storage, filter.as_ref(), slices);
-    let (got, trace) = drive_blocking(&c.stream, c.storage, sched, c.reader_kind, filter.as_ref(), slices);
-    let api = if slices == API_SLICE { "next_message_slice" } else if slices == API_MESSAGE { "read_message" } else { "alternating" };
-    let ctx = || format!("storage={} reader_kind={} filter={} schedule={:?} stream={}", c.storage, c.reader_kind, c.filter, sched, hex_short(&c.stream));
+    let (got, trace) = drive_blocking(
+        &c.stream,
+        c.storage,
+        sched,
+        c.reader_kind,
+        filter.as_ref(),
+        slices,
+    );
+    let api = if slices == API_SLICE {
+        "next_message_slice"
+    } else if slices == API_MESSAGE {
+        "read_message"
+    } else {
+        "alternating"
+    };
+    let ctx = || {
+        format!(
+            "storage={} reader_kind={} filter={} schedule={:?} stream={}",
+            c.storage,
+            c.reader_kind,
+            c.filter,
+            sched,
+            hex_short(&c.stream)
+        )
+    };
     for o in &got {
         match o {
             Outcome::Panic(p) => {
-                let hostile = if reference.hostile_at.is_some() { "declared-length<4" } else { "other" };
-                return Err(viol!(format!("reader:{}:panic:{}", api, hostile), "{} panicked: {}; {}", api, p, ctx()));
+                let hostile = if reference.hostile_at.is_some() {
+                    "declared-length<4"
+                } else {
+                    "other"
+                };
+                return Err(viol!(
+                    format!("reader:{}:panic:{}", api, hostile),
+                    "{} panicked: {}; {}",
+                    api,
+                    p,
+                    ctx()
+                ));
             }
-            Outcome::Runaway(w) => return Err(viol!(format!("reader:{}:runaway", api), "{} did not reach end of stream: {}; {}", api, w, ctx())),
+            Outcome::Runaway(w) => {
+                return Err(viol!(
+                    format!("reader:{}:runaway", api),
+                    "{} did not reach end of stream: {}; {}",
+                    api,
+                    w,
+                    ctx()
+                ))
+            }
             _ => {}
         }
     }
@@ -45,30 +85,69 @@ fn compare(c: &Case, sched: &Schedule, api_sel: u64, pass: &mut Pass) -> Result<
         return Err(viol!(
             format!("reader:{}:sequence-length", api),
             "{} produced {} outcomes, slice cutting prescribes {}: got [{}] expected [{}]; {}",
-            api, got.len(), n,
+            api,
+            got.len(),
+            n,
             got.iter().map(|o| o.short()).collect::<Vec<_>>().join(", "),
-            reference.outcomes.iter().map(|o| o.short()).collect::<Vec<_>>().join(", "),
+            reference
+                .outcomes
+                .iter()
+                .map(|o| o.short())
+                .collect::<Vec<_>>()
+                .join(", "),
             ctx()
         ));
     }
     for i in 0..prescribed {
         if !got[i].same(&reference.outcomes[i]) {
             let what = match (&got[i], &reference.outcomes[i]) {
-                (Outcome::Item(_) | Outcome::Slice(_), Outcome::End | Outcome::Err(_)) => "message-from-truncated-tail",
-                (Outcome::End | Outcome::Err(_), Outcome::Item(_) | Outcome::Slice(_)) => "message-lost",
+                (Outcome::Item(_) | Outcome::Slice(_), Outcome::End | Outcome::Err(_)) => {
+                    "message-from-truncated-tail"
+                }
+                (Outcome::End | Outcome::Err(_), Outcome::Item(_) | Outcome::Slice(_)) => {
+                    "message-lost"
+                }
                 _ => "outcome-differs",
             };
-            return Err(viol!(format!("reader:{}:{}", api, what), "{} outcome #{} is {} but slice cutting gives {}; {}", api, i, got[i].short(), reference.outcomes[i].short(), ctx()));
+            return Err(viol!(
+                format!("reader:{}:{}", api, what),
+                "{} outcome #{} is {} but slice cutting gives {}; {}",
+                api,
+                i,
+                got[i].short(),
+                reference.outcomes[i].short(),
+                ctx()
+            ));
         }
     }
     // classification of the schedule against the message layout
     let s = if c.storage { 16 } else { 0 };
-    let splits_header = trace.boundaries.iter().any(|b| reference.starts.iter().any(|st| *b > *st && *b < *st + s + 4));
-    let msgs = reference.outcomes.iter().filter(|o| matches!(o, Outcome::Item(_) | Outcome::Slice(_) | Outcome::Filtered(_))).count();
+    let splits_header = trace.boundaries.iter().any(|b| {
+        reference
+            .starts
+            .iter()
+            .any(|st| *b > *st && *b < *st + s + 4)
+    });
+    let msgs = reference
+        .outcomes
+        .iter()
+        .filter(|o| {
+            matches!(
+                o,
+                Outcome::Item(_) | Outcome::Slice(_) | Outcome::Filtered(_)
+            )
+        })
+        .count();
     if msgs >= 2 && (splits_header || trace.stalls > 0) {
         pass.nontrivial = true;
     }
-    pass.classes.push(if slices == API_SLICE { "api:next_message_slice" } else if slices == API_MESSAGE { "api:read_message" } else { "api:alternating-entry-points" });
+    pass.classes.push(if slices == API_SLICE {
+        "api:next_message_slice"
+    } else if slices == API_MESSAGE {
+        "api:read_message"
+    } else {
+        "api:alternating-entry-points"
+    });
     if splits_header {
         pass.classes.push("schedule-splits-a-header");
     }
@@ -87,7 +166,11 @@ fn compare(c: &Case, sched: &Schedule, api_sel: u64, pass: &mut Pass) -> Result<
     if msgs >= 2 {
         pass.classes.push(">=2-messages");
     }
-    if reference.outcomes.iter().any(|o| matches!(o, Outcome::Err("hickup"))) {
+    if reference
+        .outcomes
+        .iter()
+        .any(|o| matches!(o, Outcome::Err("hickup")))
+    {
         pass.classes.push("piece-rejected");
     }
     pass.subcases += 1;
@@ -99,7 +182,9 @@ pub fn check(c: &Case) -> CheckResult {
     compare(c, &c.schedule, API_MESSAGE, &mut pass)?;
     compare(c, &c.schedule, API_SLICE, &mut pass)?;
     // both entry points alternately on the same reader (pattern derived from the case)
-    let mix = crate::util::splitmix64(c.stream.len() as u64 ^ ((c.filter as u64) << 32) ^ c.schedule.steps.len() as u64) | 2;
+    let mix = crate::util::splitmix64(
+        c.stream.len() as u64 ^ ((c.filter as u64) << 32) ^ c.schedule.steps.len() as u64,
+    ) | 2;
     compare(c, &c.schedule, mix & !1, &mut pass)?;
     if c.systematic && c.stream.len() <= 400 {
         for chunk in 1..=64u16 {
@@ -115,9 +200,23 @@ pub fn check(c: &Case) -> CheckResult {
 }
 
 pub fn strategy() -> impl Strategy<Value = Case> {
-    (any::<bool>(), schedule(), 0u8..6, prop_oneof![3 => Just(0u8), 1 => 1u8..8], prop::bool::weighted(0.1)).prop_flat_map(|(storage, schedule, reader_kind, filter, systematic)| {
-        stream(storage).prop_map(move |stream| Case { stream, storage, schedule: schedule.clone(), reader_kind, filter, systematic })
-    })
+    (
+        any::<bool>(),
+        schedule(),
+        0u8..6,
+        prop_oneof![3 => Just(0u8), 1 => 1u8..8],
+        prop::bool::weighted(0.1),
+    )
+        .prop_flat_map(|(storage, schedule, reader_kind, filter, systematic)| {
+            stream(storage).prop_map(move |stream| Case {
+                stream,
+                storage,
+                schedule: schedule.clone(),
+                reader_kind,
+                filter,
+                systematic,
+            })
+        })
 }
 
 pub fn run(run: &Run) {
@@ -132,7 +231,13 @@ pub fn run(run: &Run) {
     );
     run.assume("driver protocol: call until Ok(None), at most len/4+3 calls, applied identically to implementation and reference; message_max_len >= 65551 as the reader documents");
     run.regressions(&replay);
-    run.random("schedules", run.cases(60_000, 1_000_000), 0.2, strategy, check);
+    run.random(
+        "schedules",
+        run.cases(60_000, 1_000_000),
+        0.2,
+        strategy,
+        check,
+    );
 }
 
 pub fn replay(_section: &str, case: &Json) -> Option<CheckResult> {
